@@ -20,7 +20,7 @@ import (
 )
 
 type Op struct {
-	Op string `json:"op"` // send call hold release kill add remove
+	Op string `json:"op"` // send call hold release kill killheld add remove
 	W  int    `json:"w"`  // worker index (spawn order, 1-based)
 	N  int    `json:"n"`
 }
@@ -292,7 +292,8 @@ func (r *Runner) Run(h *History) ([]Line, error) {
 	observe := func(ln *Line) {
 		for _, wk := range snapshot() {
 			o := WObs{Handled: []string{}}
-			if info, err := r.Node.ProcessInfo(wk.PID()); err == nil {
+			// (a process killed inside a callback stays in the table as a zombie until the callback returns: it is not alive)
+			if info, err := r.Node.ProcessInfo(wk.PID()); err == nil && info.State != gen.ProcessStateZombee && info.State != gen.ProcessStateTerminated {
 				o.Alive = true
 				o.QLen = info.MailboxQueues.Main
 			}
@@ -365,6 +366,11 @@ func (r *Runner) Run(h *History) ([]Line, error) {
 				case target.gate <- struct{}{}:
 				default:
 				}
+			}
+		case "killheld":
+			// killed while it is kept inside its handler: the process stays a zombie until a later release
+			if target != nil {
+				r.Node.Kill(target.PID())
 			}
 		case "add", "remove":
 			n := op.N
